@@ -214,7 +214,7 @@ class Mixed:
                'same-cport' (the same client ip:port towards different servers)."""
 
     def __init__(self, rng, tls_combos, n_quic=0, pattern="random", noise=True, v6=None, quic_features=None,
-                 tls_app=None, resched=0.3):
+                 tls_app=None, resched=0.3, repack=0.12, shape_hook=None):
         import gen_quic
         self.rng = rng
         self.tls, self.quic = [], []
@@ -224,6 +224,8 @@ class Mixed:
         for i, (code, version, etm) in enumerate(tls_combos):
             shape = random_shape(rng, version)
             shape["etm"] = etm
+            if shape_hook:
+                shape.update(shape_hook(rng, version))
             sc = gen_tls.Script(version, code, tls_app[i] if tls_app else random_app(rng, 3, 7), rng, **shape)
             ep = random_endpoints(rng, i, v6=(len(base["cip"]) == 16) if pattern != "random" else v6)
             if pattern == "same-hosts":
@@ -243,7 +245,7 @@ class Mixed:
             for d, data in flights:
                 conn.send(d, data, rng, cut)
             if rng.random() < resched:
-                conn.reschedule(rng)
+                conn.reschedule(rng, repack=repack)
                 conn.want_reschedule = True
             self.tls.append({"script": sc, "conn": conn, "truth": truth, "keylog": sc.keylog_lines()})
             per.append([f for _, f, *_ in conn.pkts])
@@ -291,7 +293,7 @@ class Mixed:
                          self.quic[self.kinds[i][1]]["conn"].dirs[idx[i]] != self.quic[self.kinds[i][1]]["conn"].dirs[idx[i] - 1]
                          and not getattr(self, "_tick_chain", False) and rng.random() < 0.1)
             self._tick_chain = bool(same_tick)         # never three datagrams on one tick: two of them would share a direction
-            t += 0 if same_tick else rng.randrange(1, 30_000)
+            t += 0 if same_tick else (rng.randrange(1, 10) if rng.random() < 0.1 else rng.randrange(1, 30_000))
             self.items.append(("pkt", t, per[i][idx[i]]))
             self.owners.append(i)
             idx[i] += 1
